@@ -11,7 +11,7 @@ of them consistently).
 """
 from __future__ import annotations
 
-from .. import core, subjref
+from .. import core, subjref, subj_ilv
 from ..subjref import P, US
 
 PROPERTY = "C23"
@@ -77,7 +77,10 @@ def run(ctx: core.Ctx):
         "cross-observer delivery order = subscription order; value+completion either observer by observer or value-to-all first (both accepted)",
     ]
     subjref.run_configs(ctx, cfgs, depths)
+    subj_ilv.run_part(ctx, "AsyncSubject")  # E3: subscribe() racing the emitting thread
 
 
 def replay(case):
+    if isinstance(case, dict) and str(case.get("harness", "")).startswith("subject-race|"):
+        return subj_ilv.replay("AsyncSubject", case)
     return subjref.replay_case(case)
